@@ -21,7 +21,7 @@ TECH = {
  'C13': 'runtime monitoring: survivor-set oracle computed from the labels before the call + invariants I1-I3 on the pruned graph; bounded-exhaustive small graphs + random graphs with adjacent prunable runs',
  'C14': 'runtime monitoring: identity scan of every node / attacker / nested container of a deep copy + mutation histories on one graph with deep snapshots of the other',
  'C15': 'runtime monitoring: structural comparison of the language graph with the reference language (all ordered pairs / orientations), ill-formed variants must raise, every generated attack-graph edge checked against the language-graph links',
- 'C16': 'runtime monitoring: offline comparison of SHA-256 digests of serialised graphs across repeated generation, fresh processes with 5 hash seeds and 14 construction routes; input snapshots before/after',
+ 'C16': 'runtime monitoring: offline comparison of SHA-256 digests of serialised graphs across repeated generation, fresh processes with 5 hash seeds and 20 construction routes (direct API, files, create_attack_graph with every switch combination by keyword and by position); input snapshots before/after',
  'C17': 'runtime monitoring: token-level mutation workload labelled by the grammar itself (counting listeners on the same generated lexer/parser), oracle: erroneous => compile must raise; exhaustive single-token deletions/truncations of the corpus',
  'C18': 'runtime monitoring: differential checker native loader vs 0.0.39 loader vs .sCAD loader on files emitted from one abstract model by inverse translations',
  'C19': 'runtime monitoring: recording stand-in for the database driver + offline isomorphism checker over the recorded subgraph + import round trip served from the recording',
